@@ -46,6 +46,21 @@ Theorem C03_unlocked_one_part_refuted :
 Proof. exact unlocked_one_part_refuted. Qed.
 Print Assumptions C03_unlocked_one_part_refuted.
 
+(* ... and the writer is closed between packets, never inside one: conn.Close (what the receive loop runs when the reply
+   direction ends, and what Client.Close runs) takes the same mutex, so for every interleaving of the senders' steps with the
+   close, what has been written when the writer is closed consists of whole packets - a header that is on the wire has its
+   payload there too. Tied by kind wireclose: the reply direction is ended while a sender sits between its two Writes. *)
+Theorem C03_close_finds_whole_packets : forall n tr w, WireMutex.crun true (w0 n, false) tr = Some (w, true) ->
+  scan (WireMutex.wire w) None = Some None.
+Proof. exact close_finds_whole_packets. Qed.
+Print Assumptions C03_close_finds_whole_packets.
+
+(* closing the transport without the mutex can leave a header without its payload *)
+Theorem C03_unlocked_close_refuted :
+  exists tr w, WireMutex.crun false (w0 1, false) tr = Some (w, true) /\ scan (WireMutex.wire w) None = Some (Some 0).
+Proof. exact unlocked_close_refuted. Qed.
+Print Assumptions C03_unlocked_close_refuted.
+
 (* ===== 32-bit request ids (Conn/IdWrap.v) =====
    The LTS numbers requests 1, 2, 3, ... without a bound; Client.nextID is atomic.AddUint32, so the request with issue
    number i carries (c0 + i) mod 2^32 where c0 is where the counter stood. Any 2^32 consecutive calls get pairwise
